@@ -120,7 +120,7 @@ fn gen_query(r: &mut Rng, w: &World) -> String {
         9 => format!("SELECT t.* FROM nums AS t WHERE {}", pred(r, 1)),
         10 => format!("SELECT x.c AS c FROM (VALUES (1), (2), ({})) AS x (c)", r.pick(&CONSTS)),
         11 => format!("SELECT {} AS a FROM nums AS t UNION SELECT o.v AS a FROM other AS o", num_expr(r, 1)),
-        12 => format!("SELECT {} AS t0, {} AS a FROM nums AS t ORDER BY {} LIMIT {} OFFSET {}", text_expr(r), num_expr(r, 1), NUMC[r.below(11) as usize], r.pick(&["0", "3", "9223372036854775807"]), r.pick(&["0", "2"])),
+        12 => format!("SELECT {} AS t0, {} AS a FROM nums AS t ORDER BY {} LIMIT {} OFFSET {}", text_expr(r), num_expr(r, 1), NUMC[r.below(11) as usize], r.pick(&["0", "3", "9223372036854775807"]), r.pick(&["0", "2", "100", "101", "5000", "9223372036854775807"])),
         _ => { let depth = r.range(0, 2) as u32; let mut g = QGen::new(r, &w.specs); g.query(depth).0 }
     }
 }
@@ -133,7 +133,8 @@ pub fn child(k: usize, outdir: &str, seed: u64, thorough: bool) -> serde_json::V
     let n = if thorough { 400 } else { 60 };
     let pinned = ["SELECT t.i_zero / t.i_zero AS a FROM nums AS t", "SELECT t.i_zero AS a, o.v AS v FROM nums AS t, other AS o WHERE t.id = o.id", "SELECT t.* FROM nums AS t",
         "SELECT x.c AS c FROM (VALUES (1), (2)) AS x (c)", "SELECT t.i_full % t.i_zero AS a FROM nums AS t", "SELECT CAST(t.f_full AS INTEGER) AS a FROM nums AS t",
-        "SELECT ABS(t.i_full) AS a FROM nums AS t", "SELECT SUM(t.f_full) AS a FROM nums AS t", "SELECT t.k AS k, COUNT(*) AS n FROM nums AS t GROUP BY t.k"];
+        "SELECT ABS(t.i_full) AS a FROM nums AS t", "SELECT SUM(t.f_full) AS a FROM nums AS t", "SELECT t.k AS k, COUNT(*) AS n FROM nums AS t GROUP BY t.k",
+        "SELECT t.id AS a FROM nums AS t ORDER BY t.id LIMIT 5 OFFSET 1000", "SELECT t.id AS a FROM nums AS t ORDER BY t.id OFFSET 101"];
     for i in 0..n {
         let mut r = rng.fork();
         let variant = r.below(12);
